@@ -4,6 +4,7 @@ from __future__ import annotations
 
 import cmath
 import math
+import random
 from datetime import datetime
 from fractions import Fraction
 
@@ -456,6 +457,11 @@ def _gen_case0(rng, exact=False):
         cons.append({"name": f"c{cnum[i]}", "coeffs": d, "limit": float(lim)})
     case = {"stations": st, "constraints": cons, "net_tol": net_tol, "call_tol": call_tol, "exact": exact,
             "angles": amode, "shape": shape}
+    if net_tol:
+        _sub = random.Random(repr(("tol_by", net_tol, len(st), len(cons))))     # private stream: the main one is not shifted
+        if _sub.random() < 0.5:
+            case["tol_by"] = "assign"
+            case["tol_probe"] = _sub.random() < 0.5
     # schedule
     ids = [s["id"] for s in st]
     included = [i for i in ids if rng.random() < 0.8] or [rng.choice(ids)]
@@ -649,11 +655,21 @@ def _build(case):
     from acnportal.acnsim.models import EVSE
     from acnportal.acnsim import Simulator, EventQueue, Interface
     from acnportal.algorithms import BaseAlgorithm
-    net = ChargingNetwork(*case["net_tol"]) if case.get("net_tol") else ChargingNetwork()
+    # tol_by = "assign": the tolerances are ASSIGNED to the public attributes after the last station / constraint was added
+    # (the only way to set them on networks built by a factory, e.g. the predefined sites), not passed to the constructor
+    assign = bool(case.get("net_tol")) and case.get("tol_by") == "assign"
+    net = ChargingNetwork(*case["net_tol"]) if (case.get("net_tol") and not assign) else ChargingNetwork()
     for s in case["stations"]:
         net.register_evse(EVSE(s["id"], max_rate=32), s["V"], s["phase"])
     for c in case["constraints"]:
         net.add_constraint(Current(dict(c["coeffs"])), c["limit"], name=c["name"])
+    if assign and case.get("tol_probe"):
+        try:                      # the network has been asked once under its first tolerances before they are changed
+            net.is_feasible(np.zeros((len(case["stations"]), 1)))
+        except Exception:  # noqa: BLE001
+            pass
+    if assign:
+        net.violation_tolerance, net.relative_tolerance = case["net_tol"][0], case["net_tol"][1]
     sim = Simulator(net, BaseAlgorithm(), EventQueue(), _start(), verbose=False)
     return net, Interface(sim), sim
 
